@@ -10,6 +10,7 @@ package main
 //           put INTO the case (internal nondeterminism is an input of the model); the model replays it step by step.
 // family 2  [2; hnil; fn; c1..ck]   goz.Recover alone.
 // family 3  [3; n; s; m]   bulk stress without a trace: s submitters x m empty tasks; output = [bodies run; handler calls; 1].
+// family 4  [4; n; hk; vk; k]   hostile panic values under the library's own handlers, in a child process (c19_hostile.go).
 
 import (
 	"crypto/sha1"
@@ -592,6 +593,11 @@ func c19Impl(in []int64) []int64 {
 			return []int64{BADCASE}
 		}
 		return c19Bulk(in[1], in[2], in[3])
+	case 4:
+		if len(in) != 5 || in[2] < 0 || in[2] > 2 || in[4] < 0 || in[4] > 64 || in[1] > 64 {
+			return []int64{BADCASE}
+		}
+		return c19HostileRun(in[1], in[2], in[3], in[4])
 	}
 	return []int64{BADCASE}
 }
@@ -619,6 +625,20 @@ func c19Gen(c *Ctx) {
 		}
 	}
 	c.Each(len(rec), func(i int, t *T) { t.Try("recover", rec[i], len(rec[i]) > 3) })
+	// ---- hostile panic values under the library's own handlers (child processes)
+	var hostile [][]int64
+	for hk := int64(0); hk <= 2; hk++ {
+		for vk := int64(0); vk <= 6; vk++ {
+			for _, n := range []int64{1, 3, 0} {
+				for _, k := range []int64{1, 4} {
+					if c.Tier == "thorough" || (n+k+hk+vk)%2 == 0 {
+						hostile = append(hostile, []int64{4, n, hk, vk, k})
+					}
+				}
+			}
+		}
+	}
+	c.Each(len(hostile), func(i int, t *T) { t.Try("hostile-panic-values", hostile[i], true) })
 	// ---- directed scripts
 	var directed [][]int64
 	for _, n := range limits {
@@ -746,6 +766,10 @@ func c19Describe(in []int64) string {
 		return fmt.Sprintf("Recover(fn panics=%d, handler nil=%d, cleanups panic=%v)", in[2], in[1], in[3:])
 	case 3:
 		return fmt.Sprintf("NewLimiter(%d), %d submitters x %d empty tasks, then Wait", in[1], in[2], in[3])
+	case 4:
+		if len(in) == 5 {
+			return fmt.Sprintf("child process: NewLimiter(%d), handler %d (0 none, 1 goz.LogPanic, 2 plain func), %d tasks panic with value kind %d (0 int, 1 typed-nil error, 2 Stringer that panics, 3 Formatter that panics, 4 error whose Error panics, 5/6 structs holding such values); Wait; fill the limiter; Wait", in[1], in[2], in[4], in[3])
+		}
 	}
 	return "?"
 }
@@ -759,5 +783,5 @@ func c19Shrink(in []int64) [][]int64 {
 
 func init() {
 	Register(&Prop{ID: "C19", Num: 19, SpecMode: "rel", Gen: c19Gen, Impl: c19Impl, Shrink: c19Shrink, Describe: c19Describe,
-		Rule: "scripts: limits {-1,0,1,2,3,8}+random, up to 53 ops (Go with 7 task kinds incl. panics by int/string/error/runtime error and nested submission, Release k, Wait), directed families 'k panics then n+2 submissions' and 'fill, panic while full, Wait while running'; stress: 1-4 submitters x 5-34 free-running tasks with the observed trace replayed by the model; bulk: up to 16 submitters x 50k empty tasks; Recover: all outcome combinations of fn and <= 3 cleanups. distinct = distinct case; non-trivial = at least 3 submissions and 2 op kinds (scripts), at least 10 tasks (stress), at least one cleanup (Recover)"})
+		Rule: "scripts: limits {-1,0,1,2,3,8}+random, up to 53 ops (Go with 7 task kinds incl. panics by int/string/error/runtime error and nested submission, Release k, Wait), directed families 'k panics then n+2 submissions' and 'fill, panic while full, Wait while running'; stress: 1-4 submitters x 5-34 free-running tasks with the observed trace replayed by the model; bulk: up to 16 submitters x 50k empty tasks; Recover: all outcome combinations of fn and <= 3 cleanups; hostile panic values (typed-nil error, Stringer/Formatter/Error that panic, structs holding them) under no handler / goz.LogPanic / a plain func, in child processes. distinct = distinct case; non-trivial = at least 3 submissions and 2 op kinds (scripts), at least 10 tasks (stress), at least one cleanup (Recover)"})
 }
